@@ -42,18 +42,25 @@ def t5(cx):
                      bad_detail=f"{dt} declared with C type {ct!r}, expected {CTYPE[dt][0]!r}: width/signedness of the C access differs from the Python one")
             cx.check(name.lower() == dt, st, construct=f"{name} names dtype {dt}", detail="exported name matches its dtype", bad_detail=f"{name} is bound to dtype {dt}", sub="name")
     cx.need(n == 10, f"expected the 10 numeric scalar kinds, found {n}")
-    dd = m.module_assign("context_cpu", "dtype_dict")
-    cx.need(isinstance(dd, ast.Dict), "context_cpu.dtype_dict is not a dict literal")
-    seen = set()
-    for k, v in zip(dd.keys, dd.values):
-        cx.need(isinstance(k, ast.Constant) and isinstance(v, ast.Constant), "dtype_dict entries not literal")
-        seen.add(k.value)
-        cx.check(k.value in CTYPE and CTYPE[k.value][0] == v.value, k, construct=f"dtype_dict[{k.value!r}] = {v.value!r}", detail="ndarray dtype -> C pointer type",
-                 bad_detail=f"dtype_dict maps {k.value} to {v.value!r}, expected {CTYPE.get(k.value, ('?',))[0]!r}", sub="dtype_dict")
-    cx.check(seen == set(CTYPE), dd, construct="dtype_dict covers the 10 numeric kinds", detail="every numeric kind can be passed as an array", bad_detail=f"dtype_dict lacks {sorted(set(CTYPE) - seen)}", sub="dtype_dict")
+    # evaluated: the table as it stands after the module body has run, and dtype2ctype on every numeric kind
+    from ..peval import Interp, Obj as _Obj, PyExc as _PyExc
+    I = Interp(m)
     f = m.func("context_cpu::dtype2ctype")
-    r = [x for x in own_nodes(f) if isinstance(x, ast.Return)]
-    cx.check(len(r) == 1 and norm(r[0].value) == "dtype_dict[dtype.name]", r[0] if r else f, detail="lookup by dtype name", bad_detail="dtype2ctype is not dtype_dict[dtype.name]", sub="dtype_dict")
+    dd = I.global_lookup("context_cpu", "dtype_dict")
+    cx.recog(isinstance(dd, dict) and all(isinstance(k, str) and isinstance(v, str) for k, v in dd.items()), f, "context_cpu.dtype_dict: not a table of strings")
+    for k, v in dd.items():
+        if k not in CTYPE:
+            cx.note(None, detail=f"dtype_dict[{k!r}] = {v!r}: not one of the 10 numeric kinds of the property (not judged)")
+            continue
+        cx.check(CTYPE[k][0] == v, None, construct=f"dtype_dict[{k!r}] = {v!r}", detail="ndarray dtype -> C pointer type",
+                 bad_detail=f"dtype_dict maps {k} to {v!r}, expected {CTYPE.get(k, ('?',))[0]!r}", sub="dtype_dict", anchor="context_cpu::")
+    fv = I.global_lookup("context_cpu", "dtype2ctype")
+    for k in sorted(CTYPE):
+        try:
+            got = I.call(fv, [_Obj("instance", {"name": k}, name="dtype")], {})
+        except _PyExc as e:
+            got = f"raises {e.etype}"
+        cx.check(got == CTYPE[k][0], None, construct=f"dtype2ctype(dtype('{k}'))", detail=f"-> {CTYPE[k][0]}", bad_detail=f"an array of {k} is passed to C as `{got}`, expected `{CTYPE[k][0]}`", sub="dtype_dict", anchor="context_cpu::dtype2ctype")
 
 
 @rule("K1", ["C17", "C02", "C07"], "kernel arguments: xobjects are passed as address(current storage)+current offset, arrays as a pointer to their first element with the element's C type")
@@ -268,38 +275,60 @@ def k4(cx):
 
 @rule("K6", ["C16"], "launch geometry: CUDA grid = ceil(n/block) blocks of block_size, OpenCL global size n; n resolved from the named argument")
 def k6(cx):
+    """evaluated: both launchers are run with recording device functions, the thread count given as a constant and as
+    the name of a kernel argument, over thread counts around multiples of the block size.  CUDA must launch
+    ceil(n/block) blocks of `block` threads (with the in-kernel `if (i < n)` guard every index is then computed exactly
+    once); OpenCL must launch a global size of exactly n (the generated OpenCL body has no guard)."""
+    from ..peval import Interp, Obj as _Obj, Opaque as _Op, Builtin as _B, PyExc as _PyExc
     m = cx.m
-    f = m.func("context_cupy::KernelCupy.__call__")
-    d = Defs(f)
-    lin = Lin(lambda n, node: None)
-    gs = d.defs_of("grid_size")
-    cx.need(len(gs) == 1 and gs[0][0] is not None, "KernelCupy.__call__: grid_size definition not found")
-    r = match_ceildiv(lin, gs[0][0], Poly.atom("n_threads"), Poly.atom("self.block_size"))
-    if r is None:
-        raise AnalysisError(f"[K6] grid size `{short(gs[0][0])}` matches no ceil-division idiom")
-    cx.check(r[0] == "ok", gs[0][1], construct=f"grid_size = {short(gs[0][0])}", nf=r[1], detail="enough blocks to cover every index < n (with the in-kernel bound guard: exactly once each)",
-             bad_detail=f"{r[1]}: the last partial block is not launched, indices >= floor(n/block)*block are never computed")
-    fc = [c for c in own_nodes(f) if isinstance(c, ast.Call) and norm(c.func) == "self.function"]
-    cx.need(len(fc) == 1 and len(fc[0].args) >= 3, "KernelCupy.__call__: launch call not found")
-    a = fc[0].args
-    cx.check(norm(a[0]) == "(grid_size,)" and norm(a[1]) == "(self.block_size,)", fc[0], construct=f"launch({norm(a[0])}, {norm(a[1])}, ...)", detail="1-d grid of grid_size blocks of block_size threads",
-             bad_detail="launch geometry is not ((grid_size,), (block_size,))", sub="launch")
-    for spec in ("context_cupy::KernelCupy.__call__", "context_pyopencl::KernelPyopencl.__call__"):
-        f2 = m.func(spec)
-        fl = Flow(f2)
-        defs = Defs(f2).defs_of("n_threads")
-        ok = False
-        if len(defs) == 2:
-            got = {}
-            for v, st in defs:
-                pol = [c.pol for c in fl.conds_at(st) if norm(c.test) == "isinstance(self.description.n_threads, str)"]
-                if pol:
-                    got[pol[0]] = norm(v)
-            ok = got.get(True) == "kwargs[self.description.n_threads]" and got.get(False) == "self.description.n_threads"
-        cx.check(ok, defs[0][1] if defs else f2, construct=f"{spec.split('::')[1]}: n_threads = kwargs[name] if named else the constant", detail="thread count taken from the named argument", bad_detail="n_threads is not resolved from the named kernel argument", sub="n_threads")
-    f3 = m.func("context_pyopencl::KernelPyopencl.__call__")
-    fc = [c for c in own_nodes(f3) if isinstance(c, ast.Call) and norm(c.func) == "self.function"]
-    cx.need(len(fc) == 1 and len(fc[0].args) >= 3, "KernelPyopencl.__call__: launch call not found")
-    a = fc[0].args
-    cx.check(norm(a[1]) == "(n_threads,)" and norm(a[2]) == "None", fc[0], construct=f"launch(queue, {norm(a[1])}, {norm(a[2])}, ...)", detail="global size = n work items (one per index, no guard needed)",
-             bad_detail="OpenCL global size is not (n_threads,): work items do not match indices 0..n-1", sub="launch")
+    NS = (1, 2, 7, 8, 9, 63, 64, 65, 1000, 1024, 1025)
+    ncase = 0
+    for spec, kind in (("context_cupy::KernelCupy", "cuda"), ("context_pyopencl::KernelPyopencl", "opencl")):
+        fnode = m.func(spec + ".__call__")
+        for named in (True, False):
+            for block in ((1, 8, 64, 96) if kind == "cuda" else (None,)):
+                bad = []
+                for nthr in NS:
+                    I = Interp(m)
+                    K = I.global_lookup(*spec.split("::"))
+                    launches = []
+
+                    def fn(*a, **k):
+                        launches.append((a, k))
+                        return _Obj("instance", {"wait": _B("event.wait", lambda: None)}, name="event")
+
+                    argn = _Obj("instance", {"name": "n"}, name="arg_n")
+                    argx = _Obj("instance", {"name": "x"}, name="arg_x")
+                    desc = _Obj("instance", {"args": [argx, argn], "n_threads": "n" if named else nthr}, name="description")
+                    me = _Obj("instance", {"description": desc, "num_args": 2, "function": _B("device function", fn), "block_size": block, "shared_mem_size_bytes": 0,
+                                           "context": _Obj("instance", {"queue": _Op("queue")}, name="ctx"), "wait_on_call": True,
+                                           "to_function_arg": _B("to_function_arg", lambda arg, v: ("arg", I.getattr(arg, "name"), v))}, cls=K)
+                    res = []
+                    try:
+                        res = I.explore(lambda: I.call(I.getattr(me, "__call__"), [], {"x": _Op("xdata"), "n": (nthr if named else 5)}), max_paths=8)
+                    except AnalysisError as e:
+                        cx.recog(False, fnode, f"{spec}.__call__: {e}")
+                    cx.recog(len(res) == 1 and res[0]["exc"] is None and len(launches) == 1, fnode, f"{spec}.__call__(n={nthr}): not one launch on one normal path ({res[0]['exc'] if res else ''})")
+                    a, k = launches[0]
+                    ncase += 1
+                    if kind == "cuda":
+                        wantg = -(-nthr // block)
+                        grid = a[0] if a else k.get("grid")
+                        blk = a[1] if len(a) > 1 else k.get("block")
+                        if not (isinstance(grid, tuple) and len(grid) == 1 and isinstance(grid[0], int) and not isinstance(grid[0], bool) and grid[0] >= wantg and isinstance(blk, tuple) and blk == (block,)):
+                            bad.append(f"n={nthr}: launch(grid={grid!r}, block={blk!r}), needed at least ({wantg},) x ({block},)")
+                    else:
+                        gsz = a[1] if len(a) > 1 else None
+                        lsz = a[2] if len(a) > 2 else None
+                        if not (isinstance(gsz, tuple) and gsz == (nthr,)):
+                            bad.append(f"n={nthr}: global size {gsz!r}, needed ({nthr},)")
+                        elif lsz is not None:
+                            bad.append(f"n={nthr}: local size {lsz!r} given (global size must then be a multiple of it)")
+                label = f"{spec.split('::')[1]}: n_threads {'named argument' if named else 'constant'}" + (f", block_size {block}" if block else "")
+                if kind == "cuda":
+                    cx.check(not bad, None, construct=label + f": grid >= ceil(n/{block}) for n in {list(NS)}", detail="enough blocks to cover every index < n (with the in-kernel bound guard: exactly once each)",
+                             bad_detail="launch geometry does not cover 0..n-1 exactly: " + "; ".join(bad[:3]), anchor=spec + ".__call__", sub="launch")
+                else:
+                    cx.check(not bad, None, construct=label + f": global size = n for n in {list(NS)}", detail="one work item per index (no guard needed)",
+                             bad_detail="OpenCL work items do not match indices 0..n-1: " + "; ".join(bad[:3]), anchor=spec + ".__call__", sub="launch")
+    cx.need(ncase >= 100, f"only {ncase} launch cases evaluated")
